@@ -95,3 +95,72 @@ for n, cap, tier in ((16, 900, "quick"), (24, 1560, "thorough"), (32, 2560, "tho
     H("C06", "quick", "c06", f"c06_parse_hss_pk_n{n}", timeout=300, model=f"Havoc{n}",
       encodes=["hss::definitions::InMemoryHssPublicKey::new", "lms::definitions::InMemoryLmsPublicKey::new"], unwind=4,
       forall="every byte string of every length 0..72 as HSS public key", bounds="cap 72 bytes > 4+24+32 (largest key) + slack")
+
+# ---------------------------------------------------------------------------------------------
+# C12 Winternitz digit encoding
+PAIRS = [(n, w) for n in (16, 24, 32) for w in (1, 2, 4, 8)]
+for w in (1, 2, 4, 8):
+    H("C12", "quick", "c12", f"c12_d1_coef_w{w}", timeout=300, model="none (pure function)", encodes=["util::coef::coef"], unwind=2,
+      forall=f"every 34-byte string, every digit index i < 272/{w}", bounds="exact for the library's buffers (n+2 <= 34 bytes)")
+for n, w in PAIRS:
+    H("C12", "quick", "c12", f"c12_d2_checksum_n{n}_w{w}", timeout=600, model=f"Havoc{n} (no digest computed)",
+      encodes=["LmotsParameter::append_checksum_to", "LmotsParameter::checksum", "util::coef::coef", "LmotsAlgorithm::construct_parameter"],
+      forall=f"every {n}-byte digest Q (all {8*n} bits symbolic)", bounds="exact (loop bound = u+2)", unwind=8 * n // w + 2)
+    H("C12", "quick", "c12", f"c12_d3_table_n{n}_w{w}", timeout=120, model=f"Havoc{n}",
+      encodes=["LmotsAlgorithm::construct_parameter", "LmotsAlgorithm::get_from_type", "constants::get_num_winternitz_chains"],
+      forall="constant table entry vs the Appendix-B formula evaluated in the harness", bounds="exact")
+    H("C12", "quick", "c12", f"c12_d4_cksm_digits_n{n}_w{w}", timeout=120, model=f"Havoc{n}",
+      encodes=["util::coef::coef", "LmotsAlgorithm::construct_parameter (p, ls)"],
+      forall="every attainable checksum value S <= u(2^w-1)", bounds="exact")
+H("C12", "quick", "c12", "c12_d3_unknown_type_codes", timeout=120, model="Havoc32", encodes=["LmotsAlgorithm::get_from_type"],
+  forall="every u32 type code outside 1..4", bounds="exact")
+
+# ---------------------------------------------------------------------------------------------
+# C13 / C05 / C03 counter kernels (one harness instance per level count L; heights symbolic)
+def _shape(L):
+    return f"every list of {L} levels over heights {{2(hook),5,10,15,20,25}} (6^{L} tuples, symbolic), every counter below 2^(sum h)"
+for L in range(1, 9):
+    t = "quick" if L <= 4 else "thorough"
+    H("C13", t, "c13", f"c13_increment_l{L}", timeout=1200, model="none (pure arithmetic)", encodes=["CompressedUsedLeafsIndexes::increment"],
+      forall=_shape(L) + ", sum h <= 63", bounds="exact; unwind 34 covers u64::pow and the level loops", unwind=34)
+    H("C13", t, "c13", f"c13_lifetime_l{L}", timeout=3600, model="none", encodes=["HssPrivateKey::get_lifetime", "CompressedUsedLeafsIndexes::to", "LmsParameter::number_of_lm_ots_keys"],
+      forall=_shape(L) + ", sum h <= 63; key state as HssPrivateKey::from leaves it (upper levels used q_i+1, bottom q_L)", bounds="exact", unwind=34)
+    H("C13", t, "c13", f"c13_digits_l{L}", timeout=3600, model="none", encodes=["CompressedUsedLeafsIndexes::to"],
+      forall=_shape(L) + ", sum h <= 63", bounds="exact", unwind=34)
+    H("C13", "thorough" if L > 3 else "quick", "c13", f"c13_injective_l{L}", timeout=3600, model="none", encodes=["CompressedUsedLeafsIndexes::to"],
+      forall=_shape(L) + " twice (two counters), sum h <= 63, every prefix length", bounds="exact", unwind=34)
+    if L >= 3:
+        H("C13", t, "c13", f"c13_tall_l{L}", timeout=3600, model="none",
+          encodes=["CompressedUsedLeafsIndexes::to", "CompressedUsedLeafsIndexes::increment", "HssPrivateKey::get_lifetime"],
+          forall=f"every list of {L} levels with sum h >= 64, every 64-bit counter", bounds="exact", unwind=34)
+    H("C05", t, "c13", f"c05_wipe_l{L}", timeout=1800, model="Havoc16 (no digest computed)",
+      encodes=["ReferenceImplPrivateKey::increment", "ReferenceImplPrivateKey::wipe", "ReferenceImplPrivateKey::to_binary_representation",
+               "ReferenceImplPrivateKey::generate", "CompressedParameterSet::from/to", "CompressedUsedLeafsIndexes::increment"],
+      forall=_shape(L) + ", every 16-byte seed", bounds="exact; n = 16", unwind=34)
+
+# ---------------------------------------------------------------------------------------------
+# C04 callback protocol (the contract harnesses also serve C05 refusal and C11 totality)
+_sign_fns = ["hss::hss_sign / hss_sign_core", "ReferenceImplPrivateKey::from_binary_representation / increment / to_binary_representation",
+             "CompressedParameterSet::to", "CompressedUsedLeafsIndexes::to / increment", "HssPrivateKey::from / get_expanded_aux_data",
+             "HssSignature::sign / to_binary_representation", "Signature::from_bytes_verbose"]
+_real_fns = _sign_fns + ["LmsSignature::sign / build_authentication_path", "lms::helper::get_tree_element", "lm_ots::keygen::*", "LmotsSignature::sign",
+                         "LmsPrivateKey::use_lmots_private_key", "generate_signature_randomizer / SeedDerive"]
+H("C04", "quick", "c04", "c04_protocol_real_h2w8_l1", timeout=1800, model="HavocSum16 (digests havoc, Winternitz chain summarised by the HashChain override)",
+  encodes=_real_fns, unwind=36, forall="1 level H2(hook)/W8: every counter 0..3, every 16-byte seed, every message of length 0..4, both callback outcomes",
+  bounds="4-leaf tree, W8 (18 chains), n=16", stubs=DEFAULT_STUBS + ["HashChain::do_actual_hash_chain overridden by HavocSum16 (one havoc step)"])
+H("C04", "thorough", "c04", "c04_protocol_real_h2w8_l2", timeout=7200, model="HavocSum16", encodes=_real_fns + ["lms::generate_key_pair", "generate_child_seed_and_lms_tree_identifier"],
+  unwind=36, forall="2 levels H2/W8: every counter 0..15 (includes roll-over into fresh subtrees), seed, message, both outcomes", bounds="4-leaf trees, W8, n=16",
+  stubs=DEFAULT_STUBS + ["HashChain::do_actual_hash_chain overridden by HavocSum16"])
+H("C04", "quick", "c04", "c04_signing_key_entry_h2w8_l1", timeout=3600, model="HavocSum16", encodes=_real_fns + ["SigningKey::from_bytes / try_sign / try_sign_with_aux / get_lifetime / as_slice"],
+  unwind=36, forall="1 level H2/W8: every counter 0..3, seed, 3-byte message; sign, lifetime before/after, second sign after exhaustion", bounds="4-leaf tree, W8, n=16",
+  stubs=DEFAULT_STUBS + ["HashChain::do_actual_hash_chain overridden by HavocSum16"])
+_contract_stubs = DEFAULT_STUBS + ["lms::generate_key_pair -> contracts::model_generate_key_pair (same private key, havoc root)",
+                                   "LmsSignature::sign -> contracts::model_lms_sign (consumes exactly one leaf or refuses; no hash values)",
+                                   "HashChain::do_actual_hash_chain overridden by HavocSum16"]
+for prop in ("C04", "C11"):
+    H(prop, "quick", "c04", "c04_protocol_contract_any_key", timeout=3600, model="HavocSum16", encodes=_sign_fns, unwind=36, replayable=False, stubs=_contract_stubs,
+      forall="every private-key byte string of every length 0..40 (all 256 values of every byte, all shapes of 1..8 levels, all counters), 2-byte message, both callback outcomes",
+      bounds="n=16 (valid key length 32); LMS layer by contract so heights up to 25 cost nothing")
+    H(prop, "quick", "c04", "c04_protocol_contract_any_key_aux", timeout=3600, model="HavocSum16", encodes=_sign_fns + ["hss::aux::hss_is_aux_data_used / hss_expand_aux_data / hss_get_aux_data_len / hss_optimal_aux_level / hss_store_aux_marker / compute_hmac"],
+      unwind=36, replayable=False, stubs=_contract_stubs,
+      forall="as above, plus every auxiliary buffer of every length 0..48 (every content, every level word)", bounds="n=16; aux cap 48 bytes")
